@@ -1117,3 +1117,25 @@ def inline_ctor(F, e):
         if r[0] == "agg":
             return subst_params(r, list(e[2]))
     return e
+
+
+def site_effects(F, fn, bb):
+    """effects of the call at block bb of fn: union over fn's instances of the callee's transitive summary"""
+    eff = F.effects()
+    out = {"acquire": set(), "block": set(), "nonblock": set(), "user": set(), "local": set()}
+    for nid in F.insts_of(fn.name):
+        for b, k, tgt, c in F.inst_edges(nid):
+            if b != bb:
+                continue
+            if k in ("local", "cb"):
+                for key in ("acquire", "block", "nonblock", "user"):
+                    out[key] |= eff[tgt][key]
+                out["local"].add(F.def_of(tgt))
+            else:
+                for kind, what in classify_external(c):
+                    out[kind].add(what)
+    return out
+
+
+def is_effectful(e):
+    return bool(e["acquire"] or e["block"] or e["nonblock"])
